@@ -106,6 +106,10 @@ struct Stats {
     sut_zero_fields: u64,
     echo_nondefault: u64,
     lenient_continued: u64,
+    enumerated_sink_points: u64,
+    enumerated_fail_points: u64,
+    enumerated_agree: u64,
+    enumerated_known: u64,
     digest: u64,
     stable: [u64; 4],
     states: HashSet<u64>,
@@ -262,7 +266,7 @@ fn merge(a: &mut Stats, b: Stats) {
         sink_full_fired, sink_once_fired, sink_fired_in_field, sink_fired_before_first_field,
         sink_fired_between_or_closer, script_fail_fired, both_err, pretty, nondefault_spec, hex_spec, ctx_nested,
         newline_chunk_end_pretty, newline_mid_chunk_pretty, empty_chunk, sut_depth_ge2, sut_nonexh_pretty,
-        sut_nonexh_plain, sut_empty_name_single, sut_zero_fields, echo_nondefault, lenient_continued
+        sut_nonexh_plain, sut_empty_name_single, sut_zero_fields, echo_nondefault, lenient_continued, enumerated_sink_points, enumerated_fail_points, enumerated_agree, enumerated_known
     );
     a.digest = a.digest.wrapping_add(b.digest);
     for i in 0..4 {
@@ -279,6 +283,69 @@ fn merge(a: &mut Stats, b: Stats) {
     if let Some((i, c, w)) = b.harness_first {
         if a.harness_first.as_ref().map_or(true, |(j, _, _)| i < *j) {
             a.harness_first = Some((i, c, w));
+        }
+    }
+}
+
+fn enumerate_fault_points(s: &mut Stats, index: u64, base: &Case, ref_len: usize) {
+    use fmtsim::script::Action;
+    let mut clean = base.clone();
+    clean.sink = SinkFault::None;
+    clean.sink_kind = 0;
+    // reference length of the fault-free run
+    let len = if base.sink == SinkFault::None { ref_len } else { judge(&clean).rf.out.len() };
+    if len <= 400 {
+        for at in 0..=len {
+            for kind in 1..=2u8 {
+                let mut c = clean.clone();
+                c.sink_kind = kind;
+                c.sink = if kind == 1 { SinkFault::Full(at) } else { SinkFault::Once(at) };
+                let j = judge(&c);
+                s.enumerated_sink_points += 1;
+                account_enumerated(s, index, &c, &j);
+            }
+        }
+    }
+    // a failing step at every position of every top-level script
+    let n_scripts = match &clean.layer {
+        Layer::Builder { fields, .. } => fields.len(),
+        Layer::Derived { data, .. } => data.scripts.len(),
+    };
+    for k in 0..n_scripts {
+        let n_pos = match &clean.layer {
+            Layer::Builder { fields, .. } => fields[k].0.len(),
+            Layer::Derived { data, .. } => data.scripts[k].0.len(),
+        };
+        for pos in 0..=n_pos.min(24) {
+            let mut c = clean.clone();
+            match &mut c.layer {
+                Layer::Builder { fields, .. } => fields[k].0.insert(pos, Action::Fail),
+                Layer::Derived { data, .. } => data.scripts[k].0.insert(pos, Action::Fail),
+            }
+            let j = judge(&c);
+            s.enumerated_fail_points += 1;
+            account_enumerated(s, index, &c, &j);
+        }
+    }
+}
+
+/// Enumerated variants count as evaluations and can be violations, but stay out of the sampled statistics.
+fn account_enumerated(s: &mut Stats, index: u64, case: &Case, j: &Judged) {
+    s.states.insert(state_key(case, j));
+    match &j.verdict {
+        Verdict::Agree => s.enumerated_agree += 1,
+        Verdict::KnownFinding(_) => s.enumerated_known += 1,
+        Verdict::Violation(w) => {
+            s.violations += 1;
+            if s.viol.len() < 64 {
+                s.viol.push((index, case.clone(), w.clone()));
+            }
+        }
+        Verdict::Harness(w) => {
+            s.harness += 1;
+            if s.harness_first.as_ref().map_or(true, |(i, _, _)| index < *i) {
+                s.harness_first = Some((index, case.clone(), w.clone()));
+            }
         }
     }
 }
@@ -322,6 +389,12 @@ fn cmd_run(args: &[String]) -> i32 {
                     let case = make_case(seed, i);
                     let j = judge(&case);
                     account(&mut s, i, &case, &j);
+                    // every 64th run: *enumerate* the fault points of that run instead of sampling one —
+                    // every byte budget of the sink (both kinds) and a failing step at every position of
+                    // every top-level field script
+                    if i % 64 == 0 {
+                        enumerate_fault_points(&mut s, i, &case, j.rf.out.len());
+                    }
                     i += threads;
                 }
                 s
@@ -393,6 +466,8 @@ fn cmd_run(args: &[String]) -> i32 {
             "empty_name_one_tuple": total.sut_empty_name_single, "zero_field_builder": total.sut_zero_fields,
             "options_echo_nondefault": total.echo_nondefault, "ill_behaved_party_continued_after_error": total.lenient_continued,
         },
+        "fault_point_enumeration": {"runs_enumerated": (total.cases + 63) / 64, "sink_fault_points": total.enumerated_sink_points, "field_failure_points": total.enumerated_fail_points,
+            "agree": total.enumerated_agree, "known_finding": total.enumerated_known},
         "distinct_states": total.states.len(),
         "digest": format!("{:016x}", total.digest),
         "violations": viol_files, "known_finding": known, "harness_error": harness,
